@@ -139,6 +139,7 @@ type Engine struct {
 	ghostFields map[string][]GhostField // "pkgpath.Type" -> ghost fields
 	guards      map[string]map[string]*GuardDecl // "pkgpath.Type" -> field -> lock discipline
 	guardDecls  map[string][]*GuardDecl          // package path -> declarations
+	exclusive   map[string]map[string]*GuardDecl // "pkgpath.Type" -> field -> every access needs the exclusive hold
 	knownFailing map[string]bool       // obligation names listed as known findings: never assumed at call sites
 }
 
@@ -149,7 +150,7 @@ var ghostLayouts = map[string][]Comp{
 	"bytes.Buffer":         {{Path: "arr", Sort: SArr, Kind: "bytearr"}, {Path: "off", Sort: SInt, Kind: "ghostlen"}, {Path: "len", Sort: SInt, Kind: "ghostlen"}},
 	"bytes.Reader":         {{Path: "arr", Sort: SArr, Kind: "bytearr"}, {Path: "off", Sort: SInt, Kind: "ghostlen"}, {Path: "len", Sort: SInt, Kind: "ghostlen"}},
 	"sync.Mutex":           {{Path: "held", Sort: SBool, Kind: "ghost"}},
-	"sync.RWMutex":         {{Path: "held", Sort: SBool, Kind: "ghost"}},
+	"sync.RWMutex":         {{Path: "held", Sort: SBool, Kind: "ghost"}, {Path: "rheld", Sort: SBool, Kind: "ghost"}},
 	"sync.Once":            {{Path: "done", Sort: SBool, Kind: "ghost"}},
 	"time.Time":            {{Path: "t", Sort: SInt, Kind: "ghost"}},
 	"strings.Builder":      {{Path: "arr", Sort: SArr, Kind: "bytearr"}, {Path: "off", Sort: SInt, Kind: "ghostlen"}, {Path: "len", Sort: SInt, Kind: "ghostlen"}},
